@@ -167,7 +167,18 @@ def run(ctx: core.Run):
     finally:
         _logging.disable(_lvl)
     ctx.extra["creation_table_rows"] = len(creation)
-    ctx.prove(["PsdVerif.Props.C03", "PsdVerif.Props.C03Pixels", "PsdVerif.Props.C03Creation"])
+    ctx.prove(["PsdVerif.Props.C03", "PsdVerif.Props.C03Pixels", "PsdVerif.Props.C03Creation", "PsdVerif.Props.C03Payload"])
+    import c03_payload
+    recorder = c03_payload.Recorder().install()      # every file the skeleton walker accepts goes to the payload walkers too
+    ctx._payload_recorder = recorder
+    try:
+        _run_rest(ctx, tables, creation, t0, c03_modes, _logging, _lvl)
+        c03_payload.run(ctx, cc.fixtures(), recorder)
+    finally:
+        recorder.remove()
+
+
+def _run_rest(ctx, tables, creation, t0, c03_modes, _logging, _lvl):
     ctx.trusted_base += [
         "Lean 4.33 kernel; axioms allowed: propext, Classical.choice, Quot.sound (audited per theorem)",
         "Model/Walker.lean: my transcription of the Adobe Photoshop File Formats Specification (sources and the three "
@@ -178,8 +189,16 @@ def run(ctx: core.Run):
         "code with a 9 x 1 RAW raster, not derived from the source text; Model/Creation.lean's colour-plane table is my "
         "transcription of the specification's header table",
     ]
+    ctx.trusted_base += [
+        "Model/WalkerPayload.lean: my transcription of the payload layouts of the Adobe specification (descriptor structure, "
+        "strings, effects layer, patterns, linked layers, filter effects, paths, slices, type tool ...); eight recorded deviations "
+        "(D1..D8 in the file header); validated on every run against every payload of the Photoshop-written fixtures",
+        "harness/c03_payload.py: a rejection inside a block whose data the caller supplied as raw bytes (recorded by wrapping "
+        "TaggedBlock.write / ImageResource.write in-process) is attributed to the caller, not to the library",
+    ]
     ctx.assumptions += [
-        "payload interiors (tagged-block data, resource data, compressed pixels) are walked only to their declared length",
+        "payload interiors of the classes without a walker (fixed layouts, free text: engine data, annotations, adjustment "
+        "records, compressed pixels) are walked only to their declared length",
         "RLE row tables and merged-image plane counts are checked by Python code in this harness, not by a theorem (C04/C17 own them)",
     ]
     quick = ctx.quick
@@ -321,12 +340,30 @@ def run(ctx: core.Run):
         "frompil x colour modes, PixelLayer.frompil, Group.new, edit-then-save of an opened fixture), plus the Photoshop-written "
         "fixtures themselves (validation of the walker). All cases are non-trivial; distinct = distinct (scenario, label, size).")
     ctx.model_coverage = {
-        "walked by length only (opaque)": ["tagged-block data", "image-resource data", "mask data / blending ranges interiors",
+        "walked by length only (opaque)": ["tagged-block data of keys without a payload walker", "image-resource data of ids "
+                                           "without a payload walker", "mask data / blending ranges interiors",
                                            "channel data", "image data"],
+        "payload interiors walked (Model/WalkerPayload.lean) - proved against the PCodec writers (Props/C03Payload.lean)": [
+            "unicode / Pascal strings", "descriptor keys", "descriptor structure, all 25 OSType classes",
+            "DescriptorBlock / DescriptorBlock2 payloads", "effects layer (lrFX)", "unicode-string block (luni)"],
+        "payload interiors walked - correspondence and search only": [
+            "Lr16 / Lr32 / Layr nested layer info (every level: walkDeep)", "patterns + virtual memory arrays", "linked layers",
+            "filter effects", "path records (resources 2000-2997, 1025; vmsk / vsms)", "slices", "URL list", "alpha names",
+            "layer group / selection ids", "grid and guides", "version info", "thumbnails", "type tool", "smart-object / placed "
+            "layer data", "metadata items (shmd)", "stroke content (vscg)", "colour lookup (clrL)"],
         "proved on the composed models (Props/C03Pixels.lean) and checked in Python on real files": [
             "merged image RLE row table (channels*height entries)", "layer channel RLE row tables", "channel lengths vs stored data"],
     }
     ctx.notes += [
+        "Props/C03Payload.lean: payload_walker_accepts_* (walker o writer for strings, keys, the whole descriptor family, "
+        "descriptor-block payloads, effects layer, luni), payload_lengths_truthful_*, typed_block_payload_walks_* (every Lr16/Lr32 "
+        "nesting level) and lengths_truthful_typed; five `*_rejected` witnesses (astral count in characters, clamped Pascal length, "
+        "4-byte for 8-byte length, count including a trailer, descriptor count off by one). Stated in the task, not proved: "
+        "walker acceptance for patterns / linked layers / filter effects / paths / slices / type tool / LayerInfoBlock payloads and "
+        "the recursion of walkDeep - those are tied by running the same Lean walkers on fixtures and on library-written bytes.",
+        "The payload walkers do not judge values (version numbers, enum members): only what decides where the next field is. "
+        "Instances of payload-gen that the library itself does not read back as written (a count attribute contradicting its own "
+        "list, a zero-length descriptor key) are not offered to the walkers: the format cannot hold them (C01 owns them).",
         "walker_accepts is partial: it needs SpecShaped (even-length tagged blocks in layer records; in a PSB no key outside "
         "the specification's + fixture-observed 8-byte list). Witness theorems walker_rejects_* and two known findings cover the rest.",
         "bigKeys_match_spec at full strength is false at this commit (bigKeys_not_spec): _BIG_KEYS has 5 keys (FELS, artd, extd, "
@@ -351,10 +388,19 @@ def run(ctx: core.Run):
     c03_extra.run_extra(ctx, tables, fx_all, jobs, answers)
     ctx.extra["phase_seconds"] = round(time.time() - t0, 1)
     if ctx.tier == "thorough":
-        ctx.recheck(["PsdVerif.Props.C03", "PsdVerif.Props.C03Pixels", "PsdVerif.Props.C03Creation"])
+        ctx.recheck(["PsdVerif.Props.C03", "PsdVerif.Props.C03Pixels", "PsdVerif.Props.C03Creation", "PsdVerif.Props.C03Payload"])
     # ---- the written-count clause on type-directed payload variants; more writer entry points (deep documents with
     # re-encoded channels, documents with extra channels edited then saved)
-    __import__("payload_gen").run_c03(ctx)
+    # (the payload walkers take the payload-gen instances through c03_payload.run_generated, which keeps the instances the
+    # format can hold: not through the recorder)
+    c03_payload_recorder = getattr(ctx, "_payload_recorder", None)
+    if c03_payload_recorder is not None:
+        c03_payload_recorder.enabled = False
+    try:
+        __import__("payload_gen").run_c03(ctx)
+    finally:
+        if c03_payload_recorder is not None:
+            c03_payload_recorder.enabled = True
     __import__("c03_writers").run(ctx, fx_all)
     # ---- every creation entry point x every mode it accepts x depth x compression x PSD/PSB
     t1 = time.time()
@@ -498,8 +544,25 @@ def replay(ctx, data):
             print("channel row tables:", channel_rle_problems(b)[:3])
             import c03_extra
             print("layer channels (specification reading):", c03_extra.layer_channel_problems(b, r[1], r[3])[:3])
+        if str(inp.get("entry", "")).startswith("walkp"):
+            import c03_payload
+            pr = c03_payload.parse_deep(cc.pbatch([("walkp.deep", hx(b))])[0])
+            print("payload walkers (skeleton, then every payload at every nesting level):",
+                  pr[0], pr[1:4] if pr[0] == "ok" else pr[1:])
         rr = cc.read_doc(b)
         print("psd-tools reads it back:", rr[0], rr[1] if rr[0] == "err" else "")
+    elif str(inp.get("entry", "")) in ("walkp.block", "walkp.resource") and inp.get("bytes"):
+        # the payload the class wrote, standalone through the walker of its key / id
+        key = inp.get("key", "")
+        print("recorded payload of", inp.get("class"), "under", key, "- walker now:")
+        try:
+            import importlib
+            mod, nm = inp["class"].rsplit(".", 1)
+            K = getattr(importlib.import_module(mod), nm)
+            x = K.frombytes(unhx(inp["bytes"]), **(inp.get("kwargs") or {}))
+            print("  the library reads the recorded bytes back as", type(x).__name__, "and writes", len(x.tobytes()), "bytes")
+        except Exception as e:  # noqa
+            print("  the library does not read the recorded bytes back:", repr(e)[:160])
     elif inp.get("entry") in ("compress", "ChannelData.set_data") and "raw" in inp:
         # re-run the compression entry point on the recorded raw plane
         import c03_extra
